@@ -1,7 +1,11 @@
 #!/bin/bash
-# MANIFEST.setup_cmd: warm-build the harness offline (release). Everything else is built on demand by ./check.
+# MANIFEST.setup_cmd: warm-build the harness offline (native release, Miri, ThreadSanitizer, AddressSanitizer
+# builds, each in its own git-ignored target directory). ./check rebuilds whatever is stale or missing.
 set -e
 cd "$(dirname "$0")/harness"
 export CARGO_NET_OFFLINE=true
 cargo build --release --offline
+( MIRIFLAGS="-Zmiri-tree-borrows -Zmiri-disable-isolation" CARGO_TARGET_DIR=target-miri cargo +nightly miri run --offline --quiet --bin vh -- WARMUP ) || echo "warning: miri warm-up failed (checks will retry)"
+( RUSTFLAGS="-Zsanitizer=thread" CARGO_TARGET_DIR=target-tsan cargo +nightly build --release --offline --quiet -Zbuild-std --target x86_64-unknown-linux-gnu --bin vh ) || echo "warning: tsan warm-up failed (checks will retry)"
+( RUSTFLAGS="-Zsanitizer=address -Cforce-frame-pointers=yes" CARGO_TARGET_DIR=target-asan cargo +nightly build --release --offline --quiet --target x86_64-unknown-linux-gnu --bin vh ) || echo "warning: asan warm-up failed (checks will retry)"
 echo "setup ok"
